@@ -30,6 +30,7 @@ type gateStream struct {
 	once    sync.Once
 	late    []byte // handed to the reader after the stream was closed: data that raced the close
 	lateGo  chan struct{}
+	deaf    bool // a transport whose Close does not wake a pending Read (a descriptor in blocking mode)
 }
 
 func (s *gateStream) Read(p []byte) (int, error) {
@@ -42,6 +43,17 @@ func (s *gateStream) Read(p []byte) (int, error) {
 			return n, nil
 		}
 		s.mu.Unlock()
+		if s.deaf {
+			select {
+			case b := <-s.in:
+				s.mu.Lock()
+				s.pending = append(s.pending, b...)
+				s.mu.Unlock()
+			case <-s.eof:
+				return 0, io.EOF
+			}
+			continue
+		}
 		select {
 		case b := <-s.in:
 			s.mu.Lock()
@@ -258,8 +270,79 @@ func clCloseLate() string {
 	return "ok"
 }
 
+// cl.closegate deaf: the local side closes a connection whose transport does not wake the pending read.  The calls in
+// flight end with an error, the subscription channels are closed, the callbacks run once — the close does not wait for
+// the reader.
+func clCloseDeaf() string {
+	log.SetOutput(ioutil.Discard)
+	st := &gateStream{in: make(chan []byte, 8), eof: make(chan struct{}), entered: make(chan struct{}), gate: make(chan struct{}), closed: make(chan struct{}), deaf: true}
+	close(st.gate)
+	defer close(st.eof)
+	ep := qnet.NewEndPoint(st)
+	client := bus.NewClient(bus.NewContext(ep))
+	var cb int64
+	client.OnDisconnect(func(error) { atomic.AddInt64(&cb, 1) })
+	outs := make(chan error, 3)
+	for i := 0; i < 3; i++ {
+		go func() {
+			cancel := make(chan struct{})
+			timer := time.AfterFunc(4*time.Second, func() { close(cancel) })
+			_, err := client.Call(cancel, 5, 1, 100, []byte{1})
+			timer.Stop()
+			select {
+			case <-cancel:
+				err = nil
+			default:
+			}
+			outs <- err
+		}()
+	}
+	_, sub, err := client.Subscribe(5, 1, 200)
+	if err != nil {
+		return "setup-error:" + err.Error()
+	}
+	time.Sleep(30 * time.Millisecond)
+	closed := make(chan struct{})
+	go func() { ep.Close(); close(closed) }()
+	select {
+	case <-closed:
+	case <-time.After(3 * time.Second):
+		return "fail:the local close does not return"
+	}
+	for i := 0; i < 3; i++ {
+		select {
+		case err := <-outs:
+			if err == nil {
+				return "fail:a call in flight was left waiting after the local close of a connection whose read does not wake"
+			}
+		case <-time.After(6 * time.Second):
+			return "fail:a call did not return"
+		}
+	}
+	select {
+	case _, ok := <-sub:
+		if ok {
+			return "fail:an event on a closed connection"
+		}
+	case <-time.After(3 * time.Second):
+		return "fail:the channel of a subscription is not closed after the local close of a connection whose read does not wake"
+	}
+	time.Sleep(5 * time.Millisecond)
+	if n := atomic.LoadInt64(&cb); n != 1 {
+		return fmt.Sprintf("fail:the disconnect callback ran %d times", n)
+	}
+	return "ok"
+}
+
 func init() {
 	executors["cl.closegate"] = func(a []string) string {
+		if len(a) == 1 && a[0] == "deaf" {
+			r := clCloseDeaf()
+			if r != "ok" {
+				lastFailDetail = r
+			}
+			return r
+		}
 		if len(a) == 1 && a[0] == "late" {
 			r := clCloseLate()
 			if r != "ok" {
